@@ -168,16 +168,23 @@ def infoObs (cs : List (Key × Nat)) (packs : List IndexPack) : String :=
   s!"ok {joinC r.1} C={joinC after}"
 
 /-- `hist`: the model side of a real history only predicts which snapshots survive (the oracles run in the harness).
-steps: `b<k>` backup of source version k, `f<i>` forget the i-th live snapshot (mod count), `p…` prune. -/
+steps: `b<k>` backup of source version k, `f<i>` forget the i-th live snapshot (mod count), `p…` prune,
+`s` a second handle reads the repository, `a<k>` that handle finishes a backup (ill-formed without a preceding `s`). -/
 def histObs (steps : List String) : String :=
-  let r := steps.foldl (fun (st : Nat × Nat) s => match s.toList with
-    | 'b' :: _ => (st.1 + 1, st.2)
-    | 'x' :: _ => (st.1 + 1, st.2)
-    | 'c' :: _ => (st.1 + 2, st.2)
-    | 'f' :: _ => if st.1 > 1 then (st.1 - 1, st.2 + 1) else st
-    | 'u' :: _ => if st.2 > 0 then (st.1 + 1, st.2 - 1) else st
-    | _ => st) (0, 0)
-  s!"ok snaps={r.1}"
+  let r := steps.foldl (fun (st : Option (Nat × Nat × Bool)) s => st.bind fun st => match s.toList with
+    | 'b' :: _ => some (st.1 + 1, st.2.1, st.2.2)
+    | 'x' :: _ => some (st.1 + 1, st.2.1, st.2.2)
+    | 'c' :: _ => some (st.1 + 2, st.2.1, st.2.2)
+    | 'f' :: _ => if st.1 > 1 then some (st.1 - 1, st.2.1 + 1, st.2.2) else some st
+    | 'u' :: _ => if st.2.1 > 0 then some (st.1 + 1, st.2.1 - 1, st.2.2) else some st
+    | ['s'] => some (st.1, st.2.1, true)
+    | 'a' :: _ => if st.2.2 then some (st.1 + 1, st.2.1, false) else none
+    | 'p' :: _ => some st
+    | ['m'] => some st
+    | _ => none) (some (0, 0, false))
+  match r with
+  | some r => s!"ok snaps={r.1}"
+  | none => "bad-op"
 
 def handle : List String → String
   | ["plan", opts, sizers, used, existing, files] =>
